@@ -37,6 +37,12 @@ func init() {
 		Gen:      c15Gen,
 		Exec:     c15Exec,
 		Class: func(in Fields) string {
+			if in.S(5) == "burst" {
+				return "burst"
+			}
+			if in.S(1) == "PRIVMSG" {
+				return "addressed-privmsg:gomaxprocs1=" + in.S(6)
+			}
 			if in.S(5) != "" {
 				return fmt.Sprintf("%s:fg%d:bg%d:gomaxprocs1=%s", in.S(5), in.I(2), in.I(3), in.S(6))
 			}
@@ -169,6 +175,8 @@ func c15Exec(in Fields) Fields {
 		loneIdx = nfg
 	case "laterbg", "laterfg":
 		return c15ExecLater(in)
+	case "burst":
+		return c15ExecBurst(in)
 	}
 	snaps := make([]c15Snap, total)
 	var mu sync.Mutex
@@ -377,6 +385,66 @@ func c15ExecLater(in Fields) Fields {
 	return append(append(c15Render("a0", a0), c15Render("a1", a1)...), c15Render("b", b)...)
 }
 
+// "burst": field 0 and fields 7.. are >= 300 DISTINCT lines of one verb, written to the socket in one
+// go; nbg background handlers each record a deep snapshot of every line they are handed.  Per handler
+// the snapshots are sorted by Raw (the lines are generated so that this is their sending order) and
+// reported in that order: each must equal the parse of ITS line, each line once per handler.
+func c15ExecBurst(in Fields) Fields {
+	verb, nbg := in.S(1), in.I(3)
+	lines := []string{in.S(0)}
+	for _, f := range in[7:] {
+		lines = append(lines, string(f))
+	}
+	c := c15ws.Conn
+	var mu sync.Mutex
+	got := make([][]c15Snap, nbg)
+	total := 0
+	var rems []client.Remover
+	for k := 0; k < nbg; k++ {
+		k := k
+		rems = append(rems, c.HandleBG(verb, client.HandlerFunc(func(_ *client.Conn, l *client.Line) {
+			s := c15Take(l)
+			mu.Lock()
+			got[k] = append(got[k], s)
+			total++
+			mu.Unlock()
+		})))
+	}
+	c15serial++
+	var buf strings.Builder
+	for _, l := range lines {
+		buf.WriteString(l + "\r\n")
+	}
+	buf.WriteString(fmt.Sprintf("PING :c15m%d\r\n", c15serial))
+	c15ws.Srv.Write([]byte(buf.String()))
+	st := &c04State{ws: c15ws}
+	st.waitWire(fmt.Sprintf("PONG :c15m%d\r\n", c15serial), 10*time.Second)
+	deadline := time.Now().Add(2 * time.Second)
+	for time.Now().Before(deadline) {
+		mu.Lock()
+		n := total
+		mu.Unlock()
+		if n >= nbg*len(lines) {
+			break
+		}
+		time.Sleep(time.Millisecond)
+	}
+	time.Sleep(5 * time.Millisecond) // a surplus invocation would show up as well
+	for _, rm := range rems {
+		rm.Remove()
+	}
+	mu.Lock()
+	defer mu.Unlock()
+	var obs Fields
+	for k := range got {
+		sort.SliceStable(got[k], func(i, j int) bool { return got[k][i].scal[5] < got[k][j].scal[5] })
+		for _, s := range got[k] {
+			obs = append(obs, c15Render(fmt.Sprintf("b%d", k), s)...)
+		}
+	}
+	return obs
+}
+
 func c15Word(r *Rand) string {
 	return string(r.Bytes(r.Range(1, 8), []byte("abcdefghXYZ0123456789#&+-_")))
 }
@@ -474,6 +542,40 @@ func c15Gen(r *Rand, tier string, scale int, emit func(Fields)) {
 				l2 += " differs"
 			}
 			emit(F(l1, verb, 1, 0, r.Intn(1000000), mode, (i/2)%2, l2))
+		case i < 144:
+			// a channel PRIVMSG addressed to the client ("<ownnick>: text" / "<ownnick>, text") with
+			// background handlers only (the exact verb PRIVMSG: such a case gets a fresh client)
+			sep := []string{": ", ", ", ":", ","}[i%4]
+			l := ":nick!ident@host.example PRIVMSG #chan :" + []string{"vbot", "VBot"}[(i/4)%2] + sep + c15Word(r) + " " + c15Word(r)
+			if i%3 == 0 {
+				l = "@t1=x " + l
+			}
+			emit(F(l, "PRIVMSG", 0, r.Range(2, 5), r.Intn(1000000), "", (i/2)%2, ""))
+		case i < 147:
+			// a burst of 300-400 distinct lines written in one go, 3-6 background handlers
+			n := r.Range(300, 400)
+			styleTags := i%2 == 0
+			f := F("", verb, 0, r.Range(3, 6), r.Intn(1000000), "burst", 0)
+			for j := 0; j < n; j++ {
+				var l string
+				if styleTags {
+					l = fmt.Sprintf("@s=%04d;t=%s :irc.server.example %s", j, c15Word(r), verb)
+				} else {
+					l = fmt.Sprintf(":n%04d!ident@host.example %s", j, verb)
+				}
+				for a := 0; a < j%5; a++ {
+					l += " " + c15Word(r)
+				}
+				if j%3 == 0 {
+					l += " :" + c15Word(r) + " " + c15Word(r)
+				}
+				if j == 0 {
+					f[0] = []byte(l)
+				} else {
+					f = append(f, []byte(l))
+				}
+			}
+			emit(f)
 		default:
 			emit(F(c15Line(r, verb, tags, nargs), verb, r.Range(1, 6), r.Range(1, 6), r.Intn(1000000), "", 0, ""))
 		}
